@@ -30,7 +30,7 @@ DLt(a, b) == DLtFrom(a, b, Len(a))
 DLe(a, b) == ~DLt(b, a)
 DIsZero(a) == \A i \in 1..Len(a) : a[i] = 0
 \* the Small a digit string denotes, or -1 when it needs more than 24 bits
-DSmall(a) == IF \A i \in 4..Len(a) : a[i] = 0 THEN a[1] + 256 * a[2] + 65536 * a[3] ELSE -1
+DSmall(a) == IF \A i \in 4..Len(a) : a[i] = 0 THEN NatOf(SubSeq(a, 1, Min({3, Len(a)}))) ELSE -1
 \* significant digits (the registry writes codes without leading zero digits)
 DSig(a) == LET nz == {i \in 1..Len(a) : a[i] # 0} IN IF nz = {} THEN <<0>> ELSE SubSeq(a, 1, Max(nz))
 
